@@ -44,7 +44,6 @@ func (ex *Exec) primAtom(name string, nv Value) Value {
 		ex.modKinds[nb.I.ID] = &ModInfo{Kind: "group", Name: "mod"}
 	}
 	iv := smt.Var(name, smt.Int, big.NewInt(2), nb.I.Hi)
-	ex.assume(smt.Lt(iv, nb.I))
 	ex.atoms[name] = true
 	g := &GroupFacet{Mod: nb.I, Exps: map[string]*smt.Term{name: smt.RealC(big.NewRat(1, 1))}, Reduced: true}
 	return ex.newBig(BigVal{I: iv, G: g})
@@ -137,7 +136,6 @@ func (ex *Exec) groupIval(g *GroupFacet) *smt.Term {
 	var t *smt.Term
 	if g.Reduced {
 		t = ex.freshInt("grp", big.NewInt(0), g.Mod.Hi)
-		ex.assume(smt.Lt(t, g.Mod))
 	} else {
 		t = ex.freshInt("prod", big.NewInt(0), nil)
 	}
@@ -410,8 +408,7 @@ func (ex *Exec) hashAxioms() []*smt.Term {
 				return
 			}
 			seen[t.ID] = true
-			if t.Op == smt.OVar && t.Sort == smt.Int && !isHashVar(t) &&
-				!strings.HasPrefix(t.Name, "grp!") && !strings.HasPrefix(t.Name, "prod!") {
+			if t.Op == smt.OVar && t.Sort == smt.Int && !isHashVar(t) && !strings.Contains(t.Name, "!") && !ex.atoms[t.Name] && ex.modKinds[t.ID] == nil {
 				if t.Hi == nil || t.Hi.BitLen() > 64 {
 					vars = append(vars, t)
 				}
